@@ -463,6 +463,29 @@ var Injectors = []injector{
 	dropParams("Method", msgReqParam),
 	dropParams("Protocol", msgReqParam),
 	dropParams("TAG", msgReqParam),
+	{"missing-parameter:ENUM", func(r Rnd, tree *[]*Dir, ids *int) *Fault {
+		// only enums nobody refers to (otherwise the dangling references are a second fault)
+		cands, _ := collect(*tree, func(d, p *Dir) bool {
+			if d.Kw != "ENUM" || len(d.Params) == 0 {
+				return false
+			}
+			used := false
+			Walk(*tree, func(x, _ *Dir) {
+				for _, bl := range x.Body {
+					if strings.Contains(bl, d.Params[0].Text) {
+						used = true
+					}
+				}
+			})
+			return !used
+		})
+		if len(cands) == 0 {
+			return nil
+		}
+		d := pick(r, cands)
+		d.Params = nil
+		return &Fault{Class: "missing-parameter:ENUM", Msg: []string{msgReqParam}, DirID: d.ID}
+	}},
 	dropParams("Tags", msgReqParam),
 	dropParams("JSIGHT", msgReqParam),
 	{"missing-parameter:URL", func(r Rnd, tree *[]*Dir, ids *int) *Fault {
